@@ -107,8 +107,6 @@ def canon(v):
     if isinstance(v, Packet):
         fs = []
         for name, f, _, _ in v.get_fields():
-            if name.startswith('_shift_to_'):
-                continue
             try:
                 fs.append([name, canon(getattr(v, name))])
             except AttributeError:
@@ -285,6 +283,14 @@ def run_case(c, ns):
             except Exception as e:
                 return outcome_of_exception(e)
             guard("eq_same", lambda: p == q)
+            if c.get("value") is not None:
+                # mixed provenance: the packet built by the constructor against the parse of its own encoding
+                def built_vs_parsed():
+                    b = build(c["value"], ns)
+                    r = cls.unpack(b.pack())
+                    same = all(getattr(b, n, None) == getattr(r, n, None) for n, _, _, _ in cls.get_fields() if not n.startswith('_shift_to_'))
+                    return [same, b == r, r == b, b != r]
+                guard("built_vs_parsed", built_vs_parsed)
             guard("ne_same", lambda: p != q)
             guard("repr", lambda: isinstance(repr(p), str))
             guard("eq_self", lambda: p == p)
